@@ -47,7 +47,8 @@ theorem Src.eat_plain (s : Src) : plainK (s.eat).1.kind := by
   · rcases Src.processDefine_kind (s.lexEat).1 (s.lexEat).2 with h | h
     · rw [h]; rfl
     · rw [h.1]; rfl
-  · rename_i h1 h2 h3 h4 h5
+  · rename_i hk; show plainK (s.lexEat).1.kind; rw [hk]; rfl
+  · rename_i h1 h2 h3 h4 h5 h6
     unfold plainK
     generalize (s.lexEat).1.kind = k at *
     cases k <;> first | rfl | (exfalso; simp at h1 h2 h3 h4 h5)
